@@ -417,7 +417,7 @@ func c12GenPipe(g *Gen) {
 		g.Case(3, s, z)
 	}
 	// (a) random programs x random streams
-	for i := 0; i < g.Pick(220, 6000); i++ {
+	for i := 0; i < g.Pick(170, 6000); i++ {
 		b := c12NewPipe(r)
 		b.pc.Extract = b.prog(1, 3, true)
 		b.pc.Transforms = b.prog(0, 6, true)
@@ -429,7 +429,7 @@ func c12GenPipe(g *Gen) {
 	// (b) the shapes of defect 19: a value taken from the configuration (literal / mapValue / level name) or from
 	// read-only program data (facility name) is truncated, sometimes only on some records; later records must see
 	// the original value
-	for i := 0; i < g.Pick(120, 3000); i++ {
+	for i := 0; i < g.Pick(90, 3000); i++ {
 		b := c12NewPipe(r)
 		pc := b.pc
 		pc.Extract = []c12Tx{{Kind: 0, S: c12Stx{Kind: 7, Keys: []int{7}}}}
@@ -533,7 +533,7 @@ func c12GenPipe(g *Gen) {
 	}
 	// (d') recycling stress: many pooled records of two size classes, tiny batches, repeats, no forced GC: nearly every
 	// record after the first runs on a recycled struct and a recycled buffer holding another record's bytes
-	for i := 0; i < g.Pick(60, 1500); i++ {
+	for i := 0; i < g.Pick(50, 1500); i++ {
 		b := c12NewPipe(r)
 		pc := b.pc
 		pc.GC = 0
